@@ -193,6 +193,10 @@ package container
 //@ ghost var PropsLen map[string]int
 //@ ghost var PropsAt map[string]map[int]InstantiationAwareComponentPostProcessor
 //@ ghost var PropsPos map[string]map[int]int
+//   AiAnswer[name][i]: what processor i of the delegate's list answered from PostProcessAfterInstantiation for the
+//   component; PropsOfPos[name][i]: which entry of the properties trace belongs to processor i (witness of "it ran")
+//@ ghost var AiAnswer map[string]map[int]bool
+//@ ghost var PropsOfPos map[string]map[int]int
 //@ ghost var BeforeAt map[string]map[int]ComponentPostProcessor
 //@ ghost var AfterLen map[string]int
 //@ ghost var AfterAt map[string]map[int]ComponentPostProcessor
@@ -242,7 +246,7 @@ package container
 // What a creation (creating callback, early-reference callback, and every registry operation that may run one) is
 // allowed to touch besides the registry's own caches: injection-point candidate lists and tag values, dependents,
 // memory behind settable fields, lifecycle / narrowing ghost state. A-CALLBACK: user callbacks stay inside this frame.
-//@ frame CreationFrame() = ShortCircuit, Wrapped, anyfield(component_definition.Property, Injects), anyfield(component_definition.Property, TagVal), anyfield(component_definition.Meta, Dependent), anyfield(sync2.Map[string, struct{}], Dom), anyfield(sync2.Map[string, struct{}], Val), RMem, RTop, FilterSrc, FilterPos, MetasPos, MetasKey, PosSnap, allmaps(map[string]any), ElLastInput, St, PropsLen, PropsAt, PropsPos, BeforeLen, BeforeAt, AfterLen, AfterAt, ApsCalls, InitCalls, CurName, Failed
+//@ frame CreationFrame() = ShortCircuit, Wrapped, anyfield(component_definition.Property, Injects), anyfield(component_definition.Property, TagVal), anyfield(component_definition.Meta, Dependent), anyfield(sync2.Map[string, struct{}], Dom), anyfield(sync2.Map[string, struct{}], Val), RMem, RTop, FilterSrc, FilterPos, MetasPos, MetasKey, PosSnap, allmaps(map[string]any), ElLastInput, St, PropsLen, PropsAt, PropsPos, AiAnswer, PropsOfPos, BeforeLen, BeforeAt, AfterLen, AfterAt, ApsCalls, InitCalls, CurName, Failed
 //@ frame RegFrame(r) = r.L1Dom, r.L1, r.L2Dom, r.L2, r.L3Dom, r.L3, r.IC, r.EarlyRuns, r.Creates, r.HasHole, r.Hole
 
 // ---- instantiation-aware processors (C05, C09, C18): all three run before the component's initialization ---------
@@ -266,6 +270,7 @@ package container
 //@ requires [properties-before-initialization] St[componentName] == 0
 //@ assigns CreationFrame()
 //@ ensures [lifecycle-untouched] St == old(St) && BeforeLen == old(BeforeLen) && AfterLen == old(AfterLen) && ApsCalls == old(ApsCalls) && InitCalls == old(InitCalls) && ShortCircuit == old(ShortCircuit) && Wrapped == old(Wrapped) && RTop >= old(RTop)
+//@ ensures [delegate-trace-untouched] AiAnswer == old(AiAnswer) && PropsOfPos == old(PropsOfPos)
 //@ ensures [failure-recorded] Failed == (old(Failed) || result1 != nil)
 //@ ensures [properties-traced] PropsLen == store(old(PropsLen), componentName, old(PropsLen[componentName]) + 1) && PropsAt == store(old(PropsAt), componentName, store(old(PropsAt[componentName]), old(PropsLen[componentName]), toany(self))) && PropsPos == old(PropsPos)
 
